@@ -5,6 +5,7 @@ import (
 	"fmt"
 	"regexp"
 	"strings"
+	"sync"
 	"time"
 
 	"github.com/beevik/etree"
@@ -295,12 +296,151 @@ func c10Replay(raw json.RawMessage) ([]string, string) {
 		json.Unmarshal(raw, &c)
 		return c10ConfusionExec(c)
 	}
+	var sq c10Seq
+	if json.Unmarshal(raw, &sq) == nil && sq.Seq {
+		return c10SeqExec(sq)
+	}
 	var c c10Case
 	if err := json.Unmarshal(raw, &c); err != nil {
 		return nil, err.Error()
 	}
 	k, d, _ := c10Exec(c)
 	return k, d
+}
+
+// ---- sequences: a genuine message after a delivery whose decoding failed ----
+
+// c10Seq: entry point P is first given a "poison" (a message of the wrong kind, or one whose
+// typed attribute does not parse: rejected while being decoded), then entry point T is given a
+// genuine K1-signed message. T's outcome must be what it is in a process that has decoded
+// nothing else (references are taken at process start: whatever the decoders keep between
+// calls is package-level, a fresh instance cannot vouch).
+type c10Seq struct {
+	Seq    bool `json:"sequence"`
+	Poison int  `json:"poison"`
+	Target int  `json:"target"`
+}
+
+var c10Poisons = []string{"forged LogoutResponse -> LogoutRequest validator", "forged LogoutRequest -> LogoutResponse validator", "forged Response -> LogoutResponse validator",
+	"LogoutResponse with unparsable IssueInstant -> LogoutResponse validator", "forged LogoutResponse -> Response pre-decoder", "Response with unparsable IssueInstant -> Response validator", "Response with unparsable IssueInstant -> Response pre-decoder"}
+var c10Targets = []string{"LogoutRequest validator", "LogoutResponse validator", "LogoutResponse pre-decoder", "Response validator", "Response pre-decoder"}
+
+func c10SeqPoison(p int) {
+	sp := world.SPConf{Store: []string{"K1"}}.Build()
+	forged := func(kind string, inst string) string {
+		l := idp.DefaultLogout(kind)
+		l.ID, l.InResponseTo, l.NameID, l.Issuer = "_forged-id", "_forged-req", evilName, "https://other-idp.example.com/metadata"
+		l.Status = "urn:oasis:names:tc:SAML:2.0:status:Responder"
+		if inst != "" {
+			l.IssueInstant = inst
+		}
+		return idp.RenderLogout(l)
+	}
+	forgedResp := func(inst string) string {
+		r := idp.DefaultResponse(1)
+		r.ID, r.InResponseTo, r.Issuer = "_forged-id", "_forged-req", "https://other-idp.example.com/metadata"
+		r.Assertions[0].NameID = evilName
+		if inst != "" {
+			r.IssueInstant = inst
+		}
+		return idp.RenderResponse(r)
+	}
+	guard(func() {
+		switch p {
+		case 0:
+			sp.ValidateEncodedLogoutRequestPOST(forged("LogoutResponse", ""))
+		case 1:
+			sp.ValidateEncodedLogoutResponsePOST(forged("LogoutRequest", ""))
+		case 2:
+			sp.ValidateEncodedLogoutResponsePOST(forgedResp(""))
+		case 3:
+			sp.ValidateEncodedLogoutResponsePOST(forged("LogoutResponse", "yesterday"))
+		case 4:
+			saml2.DecodeUnverifiedBaseResponse(forged("LogoutResponse", "yesterday"))
+		case 5:
+			sp.ValidateEncodedResponse(forgedResp("yesterday"))
+		case 6:
+			saml2.DecodeUnverifiedBaseResponse(forgedResp("yesterday"))
+		}
+	})
+}
+
+func c10SeqTarget(t int) string {
+	sp := world.SPConf{Store: []string{"K1"}}.Build()
+	lg := func(kind string) string {
+		l := idp.DefaultLogout(kind)
+		l.Sign = idp.SignSpec{Key: "K1"}
+		return idp.RenderLogout(l)
+	}
+	resp := func() string {
+		r := idp.DefaultResponse(1)
+		r.Sign = idp.SignSpec{Key: "K1"}
+		return idp.RenderResponse(r)
+	}
+	out := ""
+	p := guard(func() {
+		switch t {
+		case 0:
+			r, err := sp.ValidateEncodedLogoutRequestPOST(lg("LogoutRequest"))
+			out = fmt.Sprintf("err=%v", err)
+			if r != nil {
+				out += fmt.Sprintf(" id=%s flag=%v nameid=%v", r.ID, r.SignatureValidated, r.NameID != nil && r.NameID.Value != evilName)
+			}
+		case 1:
+			r, err := sp.ValidateEncodedLogoutResponsePOST(lg("LogoutResponse"))
+			out = fmt.Sprintf("err=%v", err)
+			if r != nil {
+				out += fmt.Sprintf(" id=%s irt=%s flag=%v", r.ID, r.InResponseTo, r.SignatureValidated)
+			}
+		case 2:
+			r, err := saml2.DecodeUnverifiedLogoutResponse(lg("LogoutResponse"))
+			out = fmt.Sprintf("err=%v", err)
+			if r != nil {
+				out += fmt.Sprintf(" id=%s irt=%s dest=%s", r.ID, r.InResponseTo, r.Destination)
+			}
+		case 3:
+			r, err := sp.ValidateEncodedResponse(resp())
+			out = fmt.Sprintf("err=%v", err)
+			if r != nil {
+				out += fmt.Sprintf(" id=%s irt=%s flag=%v n=%d", r.ID, r.InResponseTo, r.SignatureValidated, len(r.Assertions))
+			}
+		case 4:
+			r, err := saml2.DecodeUnverifiedBaseResponse(resp())
+			out = fmt.Sprintf("err=%v", err)
+			if r != nil {
+				out += fmt.Sprintf(" id=%s irt=%s dest=%s", r.ID, r.InResponseTo, r.Destination)
+				if r.Issuer != nil {
+					out += " issuer=" + r.Issuer.Value
+				}
+			}
+		}
+	})
+	return out + " panic=" + p
+}
+
+var (
+	c10SeqRefOnce sync.Once
+	c10SeqRefs    []string
+)
+
+func c10SeqRef() []string {
+	c10SeqRefOnce.Do(func() {
+		for t := range c10Targets {
+			c10SeqRefs = append(c10SeqRefs, c10SeqTarget(t))
+		}
+	})
+	return c10SeqRefs
+}
+
+func c10SeqExec(c c10Seq) (keys []string, detail string) {
+	ref := c10SeqRef()[c.Target]
+	c10SeqPoison(c.Poison)
+	got := c10SeqTarget(c.Target)
+	detail = fmt.Sprintf("after [%s]: %s gives {%s}; alone at process start it gave {%s}", c10Poisons[c.Poison], c10Targets[c.Target], got, ref)
+	if got != ref {
+		return []string{"C10/sequence/genuine-message-after-a-failed-decode-differs/" + strings.ReplaceAll(c10Targets[c.Target], " ", "-")}, detail
+	}
+	return nil, detail
 }
 
 // ---- kind confusion: every genuine message of one kind fed to the validators of the others ----
@@ -437,8 +577,27 @@ func c10Cases() []c10Case {
 }
 
 func c10Run(r *mc.Run) {
-	r.Rule = "full product kind(2) x Version(3) x Destination(7: SLO URL, absent, empty, ACS URL, evil, the SLO URL in another letter case / with a trailing slash) x Issuer(5 incl. the issuer in another letter case / with a trailing slash) x Status(6 incl. nested second-level codes, LogoutResponse) x signing state(9: unsigned, K1, K2, untrusted, tampered, 4 wrapping/relocation shapes) x presentation(2) x signature checking(2) x IdP issuer configured(2), unsigned roots also with a self-asserted SignatureValidated attribute; kind-confusion matrix 3x3x2x2; ValidateDecoded* on hand-built structs (full field product); non-trivial = the message reached the field checks or the signature logic (all do); distinct = distinct case"
+	r.Rule = "full product kind(2) x Version(3) x Destination(7: SLO URL, absent, empty, ACS URL, evil, the SLO URL in another letter case / with a trailing slash) x Issuer(5 incl. the issuer in another letter case / with a trailing slash) x Status(6 incl. nested second-level codes, LogoutResponse) x signing state(9: unsigned, K1, K2, untrusted, tampered, 4 wrapping/relocation shapes) x presentation(2) x signature checking(2) x IdP issuer configured(2), unsigned roots also with a self-asserted SignatureValidated attribute; kind-confusion matrix 3x3x2x2; 7 x 5 sequences (a delivery whose decoding fails, then a genuine signed message) through validators and pre-decoders, judged against outcomes taken at process start; ValidateDecoded* on hand-built structs (full field product); non-trivial = the message reached the field checks or the signature logic (all do); distinct = distinct case"
 	r.Assume("RSA unforgeable", "goxmldsig canonicalisers used by the harness signer")
+	// sequences: references first, while the process has decoded nothing else; the sequences
+	// themselves run at the very end, one after the other
+	c10SeqRef()
+	defer func() {
+		for p := range c10Poisons {
+			for t := range c10Targets {
+				sq := c10Seq{Seq: true, Poison: p, Target: t}
+				keys, detail := c10SeqExec(sq)
+				r.Eval(2)
+				r.State(1)
+				r.Transition(2)
+				r.Bucket("sequence")
+				r.Nontrivial(fmt.Sprintf("%+v", sq))
+				for _, k := range keys {
+					r.Violation(k, detail, sq)
+				}
+			}
+		}
+	}()
 	cases := c10Cases()
 	n := len(cases)
 	r.Set("choice_vectors", n)
